@@ -5,7 +5,7 @@
 (* Fix* constants: TRUE = the repaired tree (what the registered checks verify), FALSE = the    *)
 (* pinned design, kept as a named deviation whose counterexample is a regression schedule.      *)
 EXTENDS Integers, Sequences, FiniteSets, TLC, Json
-CONSTANTS Producers, K, Shapes, MaxFaults, MaxCrashes, InlineAt, Interval, MBs,
+CONSTANTS Producers, K, Shapes, MaxFaults, MaxCrashes, MaxIdxLoss, InlineAt, Interval, MBs,
           FixRestore,    \* failed upload puts the drained batches back at the head of the buffer
           FixPublish,    \* empty flush publishes the last *durable* offset, not nextOffset-1
           FixMonotone,   \* store update is skipped when it would lower the watermark (serialised)
@@ -20,9 +20,9 @@ CONSTANTS Producers, K, Shapes, MaxFaults, MaxCrashes, InlineAt, Interval, MBs,
           DevOrphanAlwaysSkipped,\* restart silently skips any segment without index
           DevNoFlushOnAck        \* reply success without Flush
 VARIABLES mem, up, rfail, restarted, s3seg, s3idx, storeNext, pc, stage, req, art, segUp, idxUp, pubVal, sent,
-          faults, crashes, acked, hwReg, nextReg, hwMax, hist
+          faults, crashes, acked, hwReg, nextReg, hwMax, lost, hist
 vars == <<mem, up, rfail, restarted, s3seg, s3idx, storeNext, pc, stage, req, art, segUp, idxUp, pubVal, sent,
-          faults, crashes, acked, hwReg, nextReg, hwMax, hist>>
+          faults, crashes, acked, hwReg, nextReg, hwMax, lost, hist>>
 
 Hd == 32                      \* segment header bytes
 Ft == 16                      \* footer
@@ -39,7 +39,7 @@ Init == /\ mem = EmptyMem /\ up = TRUE /\ rfail = FALSE /\ restarted = FALSE
         /\ req = [p \in Producers |-> NoReq] /\ art = [p \in Producers |-> NoArt]
         /\ segUp = [p \in Producers |-> "none"] /\ idxUp = [p \in Producers |-> "none"]
         /\ pubVal = [p \in Producers |-> -1] /\ sent = [p \in Producers |-> 0]
-        /\ faults = 0 /\ crashes = 0 /\ acked = {} /\ hwReg = FALSE /\ nextReg = FALSE /\ hwMax = 0 /\ hist = <<>>
+        /\ faults = 0 /\ crashes = 0 /\ acked = {} /\ hwReg = FALSE /\ nextReg = FALSE /\ hwMax = 0 /\ lost = {} /\ hist = <<>>
 
 S3Put(s, o) == {x \in s : x.base # o.base} \cup {o}
 MkArt(bs) == [base |-> bs[1].base, last |-> LastOf(bs[Len(bs)]), batches |-> bs]
@@ -54,7 +54,7 @@ Append_(p, sh) ==
   /\ IF sh.kind # "ok" /\ FixValidate
      THEN \* rejected before the log is touched
           /\ pc' = [pc EXCEPT ![p] = "err"] /\ req' = [req EXCEPT ![p] = NoReq]
-          /\ UNCHANGED <<mem, art, segUp, idxUp, stage, nextReg>>
+          /\ UNCHANGED <<mem, art, segUp, idxUp, stage, nextReg, lost>>
      ELSE LET lod == IF sh.kind = "neglod" THEN -2 ELSE sh.n - 1
               b == [id |-> <<p, sent[p] + 1>>, base |-> mem.next, cnt |-> sh.n, lod |-> lod,
                     sz |-> IF sh.kind = "concat" THEN 2 * Sz(sh.n) ELSE Sz(sh.n), kind |-> sh.kind]
@@ -73,7 +73,7 @@ Append_(p, sh) ==
                      /\ pc' = [pc EXCEPT ![p] = IF DevNoFlushOnAck THEN "ackready" ELSE "appended"]
                      /\ stage' = [stage EXCEPT ![p] = "flush"]
                      /\ UNCHANGED <<art, segUp, idxUp>>
-  /\ UNCHANGED <<up, rfail, restarted, s3seg, s3idx, storeNext, pubVal, faults, crashes, acked, hwReg, hwMax>>
+  /\ UNCHANGED <<up, rfail, restarted, s3seg, s3idx, storeNext, pubVal, faults, crashes, acked, hwReg, hwMax, lost>>
 
 \* prepareFlush under l.mu (called from Flush after the wait loop)
 Prepare(p) ==
@@ -84,7 +84,7 @@ Prepare(p) ==
        /\ segUp' = [segUp EXCEPT ![p] = "pending"] /\ idxUp' = [idxUp EXCEPT ![p] = "pending"]
        /\ stage' = [stage EXCEPT ![p] = "flush"]
        /\ pc' = [pc EXCEPT ![p] = "upload"]
-Rest == <<up, rfail, restarted, s3seg, s3idx, storeNext, req, pubVal, sent, faults, crashes, acked, hwReg, nextReg, hwMax>>
+Rest == <<up, rfail, restarted, s3seg, s3idx, storeNext, req, pubVal, sent, faults, crashes, acked, hwReg, nextReg, hwMax, lost>>
 FlushEnter(p) ==
   /\ up /\ pc[p] = "appended"
   /\ Log([a |-> "FlushEnter", p |-> p])
@@ -106,13 +106,13 @@ UpSeg(p, ok) ==
   /\ IF DevCommitBeforeIndex /\ ok
      THEN mem' = [mem EXCEPT !.segs = Append(@, [base |-> art[p].base, last |-> art[p].last, nb |-> Len(art[p].batches)])]
      ELSE UNCHANGED mem
-  /\ UNCHANGED <<up, rfail, restarted, s3idx, storeNext, pc, stage, req, art, idxUp, pubVal, sent, crashes, acked, hwReg, nextReg, hwMax>>
+  /\ UNCHANGED <<up, rfail, restarted, s3idx, storeNext, pc, stage, req, art, idxUp, pubVal, sent, crashes, acked, hwReg, nextReg, hwMax, lost>>
 UpIdx(p, ok) ==
   /\ up /\ pc[p] = "upload" /\ idxUp[p] = "pending"
   /\ Log([a |-> "UpIdx", p |-> p, ok |-> ok])
   /\ IF ok THEN /\ s3idx' = {x \in s3idx : x.base # art[p].base} \cup {[base |-> art[p].base, nb |-> Len(art[p].batches)]} /\ idxUp' = [idxUp EXCEPT ![p] = "ok"] /\ UNCHANGED faults
      ELSE /\ faults < MaxFaults /\ faults' = faults + 1 /\ idxUp' = [idxUp EXCEPT ![p] = "fail"] /\ UNCHANGED s3idx
-  /\ UNCHANGED <<mem, up, rfail, restarted, s3seg, storeNext, pc, stage, req, art, segUp, pubVal, sent, crashes, acked, hwReg, nextReg, hwMax>>
+  /\ UNCHANGED <<mem, up, rfail, restarted, s3seg, storeNext, pc, stage, req, art, segUp, pubVal, sent, crashes, acked, hwReg, nextReg, hwMax, lost>>
 \* errgroup cancelled the context after the sibling failed: the pending upload may be abandoned
 UpSkip(p) ==
   /\ up /\ pc[p] = "upload"
@@ -120,7 +120,7 @@ UpSkip(p) ==
         /\ Log([a |-> "UpSkip", p |-> p, which |-> "seg"])
      \/ idxUp[p] = "pending" /\ segUp[p] = "fail" /\ idxUp' = [idxUp EXCEPT ![p] = "skip"] /\ UNCHANGED segUp
         /\ Log([a |-> "UpSkip", p |-> p, which |-> "idx"])
-  /\ UNCHANGED <<mem, up, rfail, restarted, s3seg, s3idx, storeNext, pc, stage, req, art, pubVal, sent, faults, crashes, acked, hwReg, nextReg, hwMax>>
+  /\ UNCHANGED <<mem, up, rfail, restarted, s3seg, s3idx, storeNext, pc, stage, req, art, pubVal, sent, faults, crashes, acked, hwReg, nextReg, hwMax, lost>>
 \* uploadFlush's second critical section: commit, or the failure reset
 UpDone(p) ==
   /\ up /\ pc[p] = "upload" /\ segUp[p] # "pending" /\ idxUp[p] # "pending"
@@ -132,7 +132,7 @@ UpDone(p) ==
           /\ pc' = [pc EXCEPT ![p] = "publish"]
      ELSE /\ mem' = [mem EXCEPT !.flushing = FALSE, !.fb = <<>>, !.buf = IF FixRestore THEN mem.fb \o @ ELSE @]
           /\ pc' = [pc EXCEPT ![p] = "err"] /\ UNCHANGED pubVal
-  /\ UNCHANGED <<up, rfail, restarted, s3seg, s3idx, storeNext, stage, req, art, segUp, idxUp, sent, faults, crashes, acked, hwReg, nextReg, hwMax>>
+  /\ UNCHANGED <<up, rfail, restarted, s3seg, s3idx, storeNext, stage, req, art, segUp, idxUp, sent, faults, crashes, acked, hwReg, nextReg, hwMax, lost>>
 \* Flush's empty branch: a third critical section reading the offset to publish
 PubRead(p) ==
   /\ up /\ pc[p] = "pubread"
@@ -140,7 +140,7 @@ PubRead(p) ==
   /\ LET cur == IF FixPublish THEN DurableLast ELSE mem.next - 1 IN
        IF cur >= 0 THEN pubVal' = [pubVal EXCEPT ![p] = cur] /\ pc' = [pc EXCEPT ![p] = "publish"]
        ELSE pc' = [pc EXCEPT ![p] = "ackready"] /\ UNCHANGED pubVal
-  /\ UNCHANGED <<mem, up, rfail, restarted, s3seg, s3idx, storeNext, stage, req, art, segUp, idxUp, sent, faults, crashes, acked, hwReg, nextReg, hwMax>>
+  /\ UNCHANGED <<mem, up, rfail, restarted, s3seg, s3idx, storeNext, stage, req, art, segUp, idxUp, sent, faults, crashes, acked, hwReg, nextReg, hwMax, lost>>
 \* onFlush -> store.UpdateOffsets, outside l.mu
 Publish(p) ==
   /\ up /\ pc[p] = "publish"
@@ -149,17 +149,17 @@ Publish(p) ==
        /\ storeNext' = nv /\ hwReg' = (hwReg \/ nv < storeNext) /\ hwMax' = IF nv > hwMax THEN nv ELSE hwMax
   /\ pc' = [pc EXCEPT ![p] = IF stage[p] = "inline" THEN (IF DevNoFlushOnAck THEN "ackready" ELSE "appended") ELSE "ackready"]
   /\ stage' = [stage EXCEPT ![p] = "flush"]
-  /\ UNCHANGED <<mem, up, rfail, restarted, s3seg, s3idx, req, art, segUp, idxUp, pubVal, sent, faults, crashes, acked, nextReg>>
+  /\ UNCHANGED <<mem, up, rfail, restarted, s3seg, s3idx, req, art, segUp, idxUp, pubVal, sent, faults, crashes, acked, nextReg, lost>>
 Ack(p) ==
   /\ up /\ pc[p] = "ackready"
   /\ Log([a |-> "Ack", p |-> p])
   /\ acked' = acked \cup {[id |-> req[p].id, base |-> req[p].base, cnt |-> req[p].cnt]}
   /\ pc' = [pc EXCEPT ![p] = "idle"]
-  /\ UNCHANGED <<mem, up, rfail, restarted, s3seg, s3idx, storeNext, stage, req, art, segUp, idxUp, pubVal, sent, faults, crashes, hwReg, nextReg, hwMax>>
+  /\ UNCHANGED <<mem, up, rfail, restarted, s3seg, s3idx, storeNext, stage, req, art, segUp, idxUp, pubVal, sent, faults, crashes, hwReg, nextReg, hwMax, lost>>
 Err(p) ==
   /\ up /\ pc[p] = "err" /\ pc' = [pc EXCEPT ![p] = "idle"]
   /\ Log([a |-> "Err", p |-> p])
-  /\ UNCHANGED <<mem, up, rfail, restarted, s3seg, s3idx, storeNext, stage, req, art, segUp, idxUp, pubVal, sent, faults, crashes, acked, hwReg, nextReg, hwMax>>
+  /\ UNCHANGED <<mem, up, rfail, restarted, s3seg, s3idx, storeNext, stage, req, art, segUp, idxUp, pubVal, sent, faults, crashes, acked, hwReg, nextReg, hwMax, lost>>
 
 \* ---------------------------------------------------------------- crash / restart
 Crash ==
@@ -169,7 +169,7 @@ Crash ==
   /\ pc' = [p \in Producers |-> "idle"] /\ stage' = [p \in Producers |-> "flush"]
   /\ art' = [p \in Producers |-> NoArt] /\ segUp' = [p \in Producers |-> "none"] /\ idxUp' = [p \in Producers |-> "none"]
   /\ pubVal' = [p \in Producers |-> -1] /\ req' = [p \in Producers |-> NoReq]
-  /\ UNCHANGED <<rfail, restarted, s3seg, s3idx, storeNext, sent, faults, acked, hwReg, nextReg, hwMax>>
+  /\ UNCHANGED <<rfail, restarted, s3seg, s3idx, storeNext, sent, faults, acked, hwReg, nextReg, hwMax, lost>>
 \* getPartitionLog: NextOffset from the store, NewPartitionLog, RestoreFromS3, sync store from S3
 RECURSIVE SortObjs(_)
 SortObjs(S) == IF S = {} THEN <<>> ELSE LET m == CHOOSE x \in S : \A y \in S : x.base <= y.base IN <<m>> \o SortObjs(S \ {m})
@@ -193,13 +193,19 @@ Restart ==
         /\ LET nv == IF ~bad /\ last >= start THEN last + 1 ELSE storeNext IN
              /\ storeNext' = nv /\ hwMax' = IF nv > hwMax THEN nv ELSE hwMax
   /\ restarted' = TRUE
-  /\ UNCHANGED <<s3seg, s3idx, pc, stage, req, art, segUp, idxUp, pubVal, sent, faults, crashes, acked, hwReg, nextReg>>
+  /\ UNCHANGED <<s3seg, s3idx, pc, stage, req, art, segUp, idxUp, pubVal, sent, faults, crashes, acked, hwReg, nextReg, lost>>
 
+\* fault injection beyond failed uploads: the .index object of a segment disappears from the bucket while the broker is down
+LoseIdx(b) ==
+  /\ ~up /\ ~rfail /\ Cardinality(lost) < MaxIdxLoss /\ b \in {x.base : x \in s3idx}
+  /\ Log([a |-> "LoseIdx", base |-> b])
+  /\ s3idx' = {x \in s3idx : x.base # b} /\ lost' = lost \cup {b}
+  /\ UNCHANGED <<mem, up, rfail, restarted, s3seg, storeNext, pc, stage, req, art, segUp, idxUp, pubVal, sent, faults, crashes, acked, hwReg, nextReg, hwMax>>
 Next == \/ \E p \in Producers : \/ \E sh \in Shapes : Append_(p, sh)
                                 \/ FlushEnter(p) \/ FlushWake(p)
                                 \/ UpSeg(p, TRUE) \/ UpSeg(p, FALSE) \/ UpIdx(p, TRUE) \/ UpIdx(p, FALSE)
                                 \/ UpSkip(p) \/ UpDone(p) \/ PubRead(p) \/ Publish(p) \/ Ack(p) \/ Err(p)
-        \/ Crash \/ Restart
+        \/ Crash \/ Restart \/ \E b \in {x.base : x \in s3idx} : LoseIdx(b)
 Spec == Init /\ [][Next]_vars
 
 \* ---------------------------------------------------------------- Read (PartitionLog.Read, transcribed)
@@ -287,8 +293,8 @@ ReadRec(o, mb) == LET r == ReadSpec(o, mb) IN
     aligned |-> TRUE, intact |-> TRUE]
 Reads == IF up THEN {ReadRec(o, mb) : o \in 0..(mem.next - 1), mb \in MBs} ELSE {}
 Proj(o) == [base |-> o.base, last |-> o.last, batches |-> [j \in 1..Len(o.batches) |-> [id |-> o.batches[j].id, base |-> o.batches[j].base, cnt |-> o.batches[j].cnt]]]
-P == INSTANCE LogProps WITH acked <- acked, s3seg <- {Proj(o) : o \in s3seg}, s3idx <- {x.base : x \in s3idx}, storeNext <- storeNext,
-       hwRegressed <- hwReg, nextRegressed <- nextReg, rfail <- rfail, up <- up, memNext <- mem.next, hwMax <- hwMax, restarted <- restarted,
+P == INSTANCE LogProps WITH acked <- acked, s3seg <- {Proj(o) : o \in s3seg}, s3idx <- {x.base : x \in s3idx} \cup lost, storeNext <- storeNext,
+       hwRegressed <- hwReg, nextRegressed <- nextReg, rfail <- rfail, idxLost <- lost # {}, up <- up, memNext <- mem.next, hwMax <- hwMax, restarted <- restarted,
        ref <- Ref, reads <- Reads
 C01_AckedDurable == P!C01_AckedDurable
 C02_Unique == P!C02_Unique
@@ -303,6 +309,6 @@ C06_NoHide == P!C06_NoHide
 C06_NoReuse == P!C06_NoReuse
 C06_Readable == P!C06_Readable
 
-View == <<mem, up, rfail, restarted, s3seg, s3idx, storeNext, pc, stage, req, art, segUp, idxUp, pubVal, sent, faults, crashes, acked, hwReg, nextReg, hwMax>>
+View == <<mem, up, rfail, restarted, s3seg, s3idx, storeNext, pc, stage, req, art, segUp, idxUp, pubVal, sent, faults, crashes, acked, hwReg, nextReg, hwMax, lost>>
 EmitSched == PrintT(<<"SCHED", ToJson(hist)>>)
 ====
